@@ -62,6 +62,11 @@ impl<'tcx> Cx<'tcx> {
         }
     }
 
+    // canonical, re-export independent key of a definition: crate name + real def path
+    fn key(&self, did: DefId) -> String {
+        format!("{}{}", self.tcx.crate_name(did.krate), self.tcx.def_path(did).to_string_no_crate_verbose())
+    }
+
     fn ty(&self, t: Ty<'tcx>) -> String {
         with_no_trimmed_paths!(format!("{}", t))
     }
@@ -427,7 +432,7 @@ impl<'tcx> Cx<'tcx> {
                 let fty = func.ty(&body.local_decls, tcx);
                 match fty.kind() {
                     ty::FnDef(cdid, cargs) => {
-                        let _ = write!(s, ",\"fn\":{}", esc(&self.path(*cdid)));
+                        let _ = write!(s, ",\"fn\":{},\"fnk\":{}", esc(&self.path(*cdid)), esc(&self.key(*cdid)));
                         let ta: Vec<String> =
                             cargs.iter().map(|a| esc(&with_no_trimmed_paths!(format!("{}", a)))).collect();
                         let _ = write!(s, ",\"targs\":[{}]", ta.join(","));
@@ -440,7 +445,7 @@ impl<'tcx> Cx<'tcx> {
                         }));
                         if let Ok(Ok(Some(inst))) = res {
                             let rdid = inst.def_id();
-                            let _ = write!(s, ",\"res\":{}", esc(&self.path(rdid)));
+                            let _ = write!(s, ",\"res\":{},\"resk\":{}", esc(&self.path(rdid)), esc(&self.key(rdid)));
                             let kind = match inst.def {
                                 ty::InstanceKind::Item(_) => "item",
                                 ty::InstanceKind::Virtual(..) => "virtual",
@@ -562,8 +567,9 @@ impl<'tcx> Cx<'tcx> {
         let is_async = tcx.asyncness(did).is_async();
         let _ = write!(
             out,
-            "{{\"k\":\"fn\",\"id\":{},\"name\":{},\"crate\":{},\"file\":{},\"lo\":{},\"hi\":{},\"defkind\":{},\"vis\":{},\"expn\":{},\"impl_for\":{},\"trait\":{},\"async\":{},\"argc\":{}",
+            "{{\"k\":\"fn\",\"id\":{},\"key\":{},\"name\":{},\"crate\":{},\"file\":{},\"lo\":{},\"hi\":{},\"defkind\":{},\"vis\":{},\"expn\":{},\"impl_for\":{},\"trait\":{},\"async\":{},\"argc\":{}",
             esc(&self.path(did)),
+            esc(&self.key(did)),
             esc(&name),
             esc(&self.krate),
             esc(&self.file_of(dspan)),
